@@ -9,6 +9,10 @@ use std::panic::{catch_unwind, AssertUnwindSafe};
 
 mod xlate;
 mod ops;
+mod units;
+mod fixtures;
+#[path = "../../harness/src/reference.rs"]
+mod reference;
 
 pub type Args = HashMap<String, String>;
 
@@ -52,6 +56,9 @@ pub fn guarded<F: FnOnce() -> R, R>(f: F) -> Result<R, String> {
 }
 
 fn main() {
+    if std::env::args().nth(1).as_deref() == Some("fixtures") {
+        std::process::exit(fixtures::run());
+    }
     std::panic::set_hook(Box::new(|_| {}));
     let mut txt = String::new();
     std::io::stdin().read_to_string(&mut txt).unwrap();
@@ -68,6 +75,7 @@ fn main() {
         "dec" => ops::replay_dec(&a),
         "canon" => ops::replay_canon(&a),
         "op" => ops::replay_op(&a),
+        "unit" => units::replay_unit(&a),
         _ => (false, "unknown".to_string(), format!("unknown transport kind '{}'", kind)),
     };
     println!("REPLAY reproduced={} key={} detail={}", rep, key, detail.replace('\n', " "));
